@@ -24,7 +24,7 @@ def gen_history(rng, ncomp, nops):
     ops = []
     for c in range(rng.randint(2, ncomp)):
         ops.append(("add", c))
-    kinds = ["connect"] * 5 + ["cut"] * 2 + ["remove"] * 1 + ["readd"] * 2 + ["add"] * 1 + ["map"] * 1 + ["raise"] * 1 + ["solve"] * 2 + ["prune"] * 1
+    kinds = ["connect"] * 5 + ["cut"] * 2 + ["remove"] * 1 + ["readd"] * 2 + ["add"] * 2 + ["map"] * 1 + ["raise"] * 3 + ["solve"] * 2 + ["prune"] * 1
     pairs = []
     for _ in range(nops):
         k = rng.choice(kinds)
@@ -91,7 +91,11 @@ def run_history(ctx, comps, ops, replay, stop_sig=None):
                 p, q = comps[a]["pins"][i], comps[b]["pins"][j]
                 free = spec.free()
                 mapped = set(spec.mapping.values())
-                if (a, p) not in free or (b, q) not in free or (a, p) in mapped or (b, q) in mapped:
+                if (a, p) not in free or (b, q) not in free:
+                    continue
+                # connecting a pin that is exposed leaves a stale exposure behind (allowed: only at solve time must
+                # the exposed pins be free); taken for three quarters of such draws
+                if ((a, p) in mapped or (b, q) in mapped) and (i + j + len(executed)) % 4 == 0:
                     continue
                 executed.append(("connect", a, p, b, q))
                 real.sol.connect(real.sts[a], p, real.sts[b], q)
@@ -144,6 +148,8 @@ def run_history(ctx, comps, ops, replay, stop_sig=None):
             elif k == "solve":
                 if not spec.present:
                     continue
+                if any(t not in spec.free() for t in spec.mapping.values()):
+                    continue                    # a stale exposure is connected: outside the property's histories
                 executed.append(op)
                 ok, msg = wiring.solve_and_compare(real, spec)
                 if not ok:
